@@ -170,7 +170,7 @@ func (x *Exec) ghostStmtEnv(st *State, fi int, c *Contract, g *GhostStmt, s stri
 		label, text := splitLabel(strings.TrimSpace(s[len("assert"):]))
 		t := env.EvalBool(text)
 		x.oblige(st, "assert", label, g.Anchor, Implies(cond, t), pos)
-	case strings.HasPrefix(s, "assume "):
+	case strings.HasPrefix(s, "assume ") || strings.HasPrefix(s, "assume["):
 		label, text := splitLabel(strings.TrimSpace(s[len("assume"):]))
 		x.assumes = append(x.assumes, fmt.Sprintf("%s: assume[%s] %s", c.Key, label, text))
 		st.assume(Implies(cond, env.EvalBool(text)))
